@@ -337,7 +337,9 @@ func (b *builder) build(s *Spec, label string) gen.V {
 		case "maxLength":
 			f["MaxLength"] = absint.Num{A: b.atom(s, "PosInt", kw, true)}
 		case "pattern":
-			f["Pattern"] = absint.HoleStr(b.atom(s, "RawStr", kw, true))
+			pa := b.atom(s, "RawStr", kw, true)
+			pa.Facts["forkconst"] = "yes"
+			f["Pattern"] = absint.HoleStr(pa)
 		case "minimum":
 			f["Minimum"] = g.M.NewPtr(absint.Num{A: b.atom(s, "Float", kw, true), IsFloat: true}, kw)
 		case "maximum":
